@@ -441,8 +441,41 @@ func runE2E(seed uint64, cas int, mode string, nops int) *E2ERes {
 		res.Walks++
 		return !s.stop && len(res.Viol) == 0
 	}
+	// hostile mode: replies to hostile requests are not the oracle (C11 asks
+	// for a reply, a live process and a server that keeps serving): a canary
+	// through the API replaces the comparison with the reference
+	canary := func(n int) {
+		res.Walks++
+		if r := doOp(stub, &Op{K: OpGetattr, H: root}); r.Stat != stOK || r.Ftype != KDir {
+			viol("canary", "after %d requests GETATTR of the root: status %d type %d", n, r.Stat, r.Ftype)
+			return
+		}
+		name := fmt.Sprintf("e2e-canary-%d", n)
+		cr := doOp(stub, &Op{K: OpCreate, H: root, Name: name})
+		if cr.Stat == stNOSPC || cr.Stat == stIO {
+			return // the hostile requests may have filled the disk or the directory
+		}
+		if cr.Stat != stOK {
+			viol("canary", "after %d requests CREATE of a fresh name in the root: status %d", n, cr.Stat)
+			return
+		}
+		w := &Op{K: OpWrite, H: cr.FH, Off: 100, Count: 5000, DataLen: 5000, Uid: uint64(n) + 9000, Stable: 2}
+		w.Materialize()
+		if wr := doOp(stub, w); wr.Stat == stOK {
+			rd := doOp(stub, &Op{K: OpRead, H: cr.FH, Off: 0, Count: 8192})
+			want := append(make([]byte, 100), w.Data[:wr.Count]...)
+			if rd.Stat != stOK || !bytes.Equal(rd.Data, want) {
+				viol("canary", "after %d requests the canary file reads back wrong: status %d, %d bytes (wrote %d at offset 100)", n, rd.Stat, len(rd.Data), wr.Count)
+			}
+		} else if wr.Stat != stNOSPC {
+			viol("canary", "after %d requests WRITE to the canary file: status %d", n, wr.Stat)
+		}
+		if rm := doOp(stub, &Op{K: OpRemove, H: root, Name: name}); rm.Stat != stOK {
+			viol("canary", "after %d requests REMOVE of the canary file: status %d", n, rm.Stat)
+		}
+	}
 	every := 25 + rng.Intn(15)
-	for i := 0; i < nops && !s.stop; i++ {
+	for i := 0; i < nops && (!s.stop || mode == "hostile"); i++ {
 		var op *Op
 		if len(s.queue) > 0 {
 			op = s.queue[0]
@@ -490,13 +523,19 @@ func runE2E(seed uint64, cas int, mode string, nops int) *E2ERes {
 					goto out
 				}
 			case "hostile":
-				s.walkCompare("dump", fmt.Sprintf("after op %d", s.step))
-				res.Walks++
+				canary(i)
 			}
 		}
 	}
 out:
-	if len(res.Viol) == 0 && !s.stop && !proc.exited() {
+	if mode == "hostile" {
+		if len(res.Viol) == 0 && !proc.exited() {
+			canary(nops)
+		}
+		// differences between replies to hostile requests and the reference are
+		// not C11's business (the in-process hostile engine treats them alike)
+		sres.Viol = nil
+	} else if len(res.Viol) == 0 && !s.stop && !proc.exited() {
 		s.walkCompare("dump", "at the end")
 		res.Walks++
 		alive(&Op{K: OpNull})
